@@ -16,7 +16,7 @@ evaluates every selection twice (Go re-randomises map iteration).
 def run(ctx):
     ctx.level = "proof"
     ctx.assumptions += [
-        "the selection seed (sha512(sha512(json(previous block fields)))) is an input of the model, computed by the real getParticipantSelectionSeed",
+        "the selection seed (sha512(sha512(json(previous block fields)))) is an input of the model; the harness computes it independently and requires the real getParticipantSelectionSeed to return it",
         "peer indices and table lengths fit uint32 (no truncation of len(dposTable))",
         "node ids in generated pools are alphanumeric, so json.Marshal in shuffle_hash does no escaping",
     ]
